@@ -423,7 +423,7 @@ func keyExchange(klen int, ida, idb []byte, pri *PrivateKey, pub *PublicKey, rpr
 		return
 	}
 	zero := new(big.Int)
-	if vx.Cmp(zero) == 0 || vy.Cmp(zero) == 0 {
+	if vx.Cmp(zero) == 0 && vy.Cmp(zero) == 0 {
 		err = errors.New("V is infinite")
 		return
 	}
